@@ -12,6 +12,8 @@ var hostileAtoms = []string{
 	"</message>", "</iq>", "<body>", "</body>", "<x xmlns='y'/>", "=", "/", " ", "  ", "\t", "\n", "\r", "\r\n",
 	"a", "b", "Z", "0", "é", "ß", "中", "日本", " ", " ", "�", "\U0001F600", "\U00010000", "퟿", "",
 	"xmlns", "xml:lang", "jabber:client", ":", "%", "\\", "{", "}", "@", "#",
+	// characters that string "preparation" steps map to a space or to nothing, and Unicode line separators
+	"\u00a0", "\u200b", "\ufeff", "\u00ad", "\u3000", "\u2003", "\u2060", "\u2028", "\u0085", "\u200d",
 }
 
 // Text returns a hostile string of up to maxRunes runes (possibly empty when allowEmpty).
